@@ -28,6 +28,7 @@ def run(ctx):
         ctx.guard("C06", "casts", lambda: casts.census(ctx, prog, scope='hash::algorithms::normalize_|FuzzyHashData.*::normaliz', floor=1))
         ctx.guard("C06", "writers", lambda: tail.classify_writers(ctx, prog, scope=r"(normalize|from_raw_form|init_from_raw_form|hash_dual::algorithms::compress|core::convert::From<internals::hash::FuzzyHashData<S1, S2, false>>)", floor=3))
         ctx.guard("C06", "const values", lambda: data.const_census(ctx, prog, data.CONST_SCOPES["C06"], floor=1))
+        ctx.guard("C06", "panic conditions", lambda: beliefs.live_census(ctx, prog, beliefs.SCOPES["C06"][0]))
         ctx.guard("C06", "validator-outcomes", lambda: normal.validator_outcomes(ctx, prog))
         ctx.guard("C06", "parser-init", lambda: parser.initial_values(ctx, prog))
         ctx.guard("C06", "run-counters", lambda: normal.run_counters(ctx, prog, ("validator", "parser")))
